@@ -36,7 +36,8 @@ def variant_case(args):
         ev["case"]["name"] = name
         cls = [{"key": kk, "bytes": v[0], "json": v[1], "which": v[2]} for kk, v in sorted(b["classes"].items())]
         # "field": the dataclass field the error message names (Field(name='float', ...)), if any -- transported for the KF predicate
-        errs = [{"key": e[0], "msg": e[1][:160], "field": (re.search(r"Field\(name='(\w+)'", e[1]) or [None, ""])[1]} for e in b["errors"]]
+        errs = [{"key": e[0], "msg": e[1][:160], "field": (re.search(r"Field\(name='(\w+)'", e[1]) or [None, ""])[1],
+                 "placeholder": "'Placeholder' object" in e[1]} for e in b["errors"]]
         if k == 0:
             base = (b, cls, errs)
         beh = {"options": list(opts), "import": b["import"], "errors": errs, "classes": cls, "pydantic": pyd,
